@@ -824,6 +824,22 @@ func (e *Engine) evalLoopClauses(st *State, fr *Frame, cls []Clause, iterKey str
 			typs[fv.Name()] = fv.Type()
 		}
 	}
+	// address-taken locals (SSA Allocs carry the variable's name): their current value
+	for _, b := range fr.fn.Blocks {
+		for _, in := range b.Instrs {
+			if al, ok := in.(*ssa.Alloc); ok && al.Comment != "" && al.Comment != "complit" {
+				if _, taken := vars[al.Comment]; taken {
+					continue
+				}
+				if v, ok := st.rregs(fr)[al]; ok {
+					if p, ok := v.(VPtr); ok {
+						vars[al.Comment] = e.load(st, p)
+						typs[al.Comment] = al.Type().Underlying().(*types.Pointer).Elem()
+					}
+				}
+			}
+		}
+	}
 	var out []Term
 	for _, cl := range cls {
 		pre := st
